@@ -34,11 +34,33 @@ def goenv():
     return env
 
 
-def overlay_map(spec):
+def overlay_map(spec, pkg=None):
+    """Overlay for the jobs of one harness package: the spec's shims plus that package's
+    extra shims (pkg_shims), which hold accessors for functions a refactor may remove."""
     ov = {}
     for pkgdir, fname in spec.get("shims", {}).items():
         ov[os.path.join(REPO, pkgdir, "zz_verif_shim.go")] = os.path.join(ROOT, "shims", fname)
+    for pkgdir, fname in spec.get("pkg_shims", {}).get(pkg or "", {}).items():
+        ov[os.path.join(REPO, pkgdir, "zz_verif_shim_extra.go")] = os.path.join(ROOT, "shims", fname)
     return ov
+
+
+SKIPPED = []
+
+
+def requirements_met(h):
+    """A harness may name source text it needs (an unexported function it calls through a
+    shim). If /repo no longer has it the harness cannot be built: it is skipped and reported,
+    the other harnesses of the property still run."""
+    for r in h.get("requires", []):
+        try:
+            txt = open(os.path.join(REPO, r["file"])).read()
+        except OSError:
+            txt = ""
+        if r["text"] not in txt:
+            SKIPPED.append("%s: skipped, %s no longer contains '%s'" % (h["func"], r["file"], r["text"]))
+            return False
+    return True
 
 
 def expand_cases(h, tier):
@@ -70,6 +92,8 @@ def build_jobs(spec, tier, known, solver):
     for h in spec["harnesses"]:
         tiers = h.get("tiers", ["quick", "thorough"])
         if tier not in tiers:
+            continue
+        if not requirements_met(h):
             continue
         for case in expand_cases(h, tier):
             if os.environ.get("VERIF_CASE") and json.loads(os.environ["VERIF_CASE"]) != case:
@@ -230,7 +254,7 @@ def run_check(prop, tier, seed, spec, entries, ov, solver, workdir, t0, known):
                 shards.append((pkg, b))
     results = []
     with ThreadPoolExecutor(max_workers=par) as ex:
-        futs = [ex.submit(run_gosx, i, pkg, b, ov, solver, seed, workdir, spec.get("src_pkgs")) for i, (pkg, b) in enumerate(shards)]
+        futs = [ex.submit(run_gosx, i, pkg, b, overlay_map(spec, pkg), solver, seed, workdir, spec.get("src_pkgs")) for i, (pkg, b) in enumerate(shards)]
         for f in futs:
             results.append(f.result())
     hres = []
@@ -247,6 +271,8 @@ def run_check(prop, tier, seed, spec, entries, ov, solver, workdir, t0, known):
             h["_pkg"] = pkg
             hres.append(h)
     inconclusive = list(errors)
+    for note in SKIPPED:
+        print("note: " + note)
     for h in hres:
         if h["status"] == "inconclusive":
             inconclusive.append("%s%s: %s" % (h["func"], h.get("params") or "", h["inconclusive"]))
@@ -268,7 +294,7 @@ def run_check(prop, tier, seed, spec, entries, ov, solver, workdir, t0, known):
             fp_jobs.append((h, e2))
     if fp_jobs:
         with ThreadPoolExecutor(max_workers=par) as ex:
-            futs = [ex.submit(run_gosx, 1000 + i, e2["_pkg"], [e2], ov, solver, seed, workdir, spec.get("src_pkgs")) for i, (h, e2) in enumerate(fp_jobs)]
+            futs = [ex.submit(run_gosx, 1000 + i, e2["_pkg"], [e2], overlay_map(spec, e2["_pkg"]), solver, seed, workdir, spec.get("src_pkgs")) for i, (h, e2) in enumerate(fp_jobs)]
             for (h, e2), f in zip(fp_jobs, futs):
                 r = f.result()
                 got = (r.get("harnesses") or [None])[0]
@@ -325,7 +351,7 @@ def run_check(prop, tier, seed, spec, entries, ov, solver, workdir, t0, known):
     reports = {}
     t_sym = time.time() - t0
     for pkg, items in items_by_pkg.items():
-        reports[pkg] = native_batch(pkg, items, ov, workdir)
+        reports[pkg] = native_batch(pkg, items, overlay_map(spec, pkg), workdir)
     t_nat = time.time() - t0 - t_sym
     if os.environ.get("VERIF_VERBOSE"):
         print("timing: symbolic %.1fs (max load %.1fs, shards %d), native %.1fs" % (t_sym, load_s, len(shards), t_nat))
@@ -445,6 +471,7 @@ def run_check(prop, tier, seed, spec, entries, ov, solver, workdir, t0, known):
             "obligation_instances_discharged_unsat": disch,
             "obligation_instances_decided_by_constant_folding": sum(h.get("folded", 0) for h in hres),
             "distinct_obligations": msgs[:80],
+            "harnesses_skipped": list(SKIPPED),
             "queries": sum(h["queries"] for h in hres),
             "solver": " ".join(solver) + " (4.8.12)",
             "solver_time_s": round(sum(h["solver_s"] for h in hres), 2),
@@ -510,7 +537,7 @@ def replay_cmd(path):
     r = json.load(open(path))
     prop = r["property"]
     spec = json.load(open(os.path.join(ROOT, "checks", prop + ".json")))
-    ov = overlay_map(spec)
+    ov = overlay_map(spec, r["pkg"])
     workdir = tempfile.mkdtemp(prefix="verif_replay_")
     try:
         reps = native_batch(r["pkg"], [{"harness": r["harness"], "model": r["model"], "params": r.get("params") or {}}], ov, workdir)
